@@ -215,4 +215,15 @@ theorem getModularity_ok (nRow nCol nnz : Nat) (B : Nat → Nat → Rat) (labels
                 · intro h0; apply hw; unfold totalWeight at h0; rw [h0]; rfl
                 · cases h; rfl
 
+/-- `weights='degree'`: the returned modularity is the documented directed form -/
+theorem getModularity_eq_def_degree (nRow nCol nnz : Nat) (B : Nat → Nat → Rat) (labels : List Int)
+    (labelsCol : Option (List Int)) (γ : Rat) (o : ModOut)
+    (h : getModularity nRow nCol nnz B labels labelsCol .degree γ = .ok o) :
+    ∃ lab, modLabels nRow nCol labels labelsCol = .ok lab ∧
+      o.mod = modularityDoc (modAdj nRow nCol B).1 (modAdj nRow nCol B).2 γ (labelAt lab) := by
+  obtain ⟨lab, pr, pc, h1, h2, h3, -, rfl⟩ := getModularity_ok _ _ _ _ _ _ _ _ _ h
+  refine ⟨lab, h1, ?_⟩
+  rw [modTerms_mod, modTerms_fit, modTerms_div, getProbs_degree_out _ _ _ h2, getProbs_degree_in _ _ _ h3,
+    ← fit_sub_div_eq_doc]
+
 end SkNet.Modularity
